@@ -447,7 +447,10 @@ EditStep(s, e) ==
       redone == e.ev = "Redo" /\ e.ok /\ old.has /\ new.undon = old.undon + 1 /\ old.future # <<>>
       undoExact == undone => new.ncontent = old.past[Len(old.past)]
       redoExact == redone => new.ncontent = old.future[Len(old.future)]
-      past2 == IF pushed THEN Append(old.past, old.ncontent)
+      \* kinds whose restoration C14 calls approximate: the ghost does not reach across them
+      barrier == pushed /\ e.op.k \in {"txt.style", "tree.style", "tree.rmstyle", "arr.mov", "arr.movfront", "arr.movlast", "arr.set"}
+      past2 == IF barrier THEN <<>>
+               ELSE IF pushed THEN Append(old.past, old.ncontent)
                ELSE IF undone THEN SubSeq(old.past, 1, Len(old.past) - 1)
                ELSE IF redone THEN Append(old.past, old.ncontent)
                ELSE IF old.has /\ e.ev \in {"Undo", "Redo"} /\ new.undon # old.undon THEN <<>>
@@ -455,6 +458,9 @@ EditStep(s, e) ==
       future2 == IF pushed THEN (IF new.redo THEN old.future ELSE <<>>)
                  ELSE IF undone THEN (IF new.redo THEN Append(old.future, old.ncontent) ELSE <<>>)
                  ELSE IF redone THEN SubSeq(old.future, 1, Len(old.future) - 1)
+                 \* an undo/redo of an entry the ghost does not track (the set-up operations of
+                 \* the behaviour, which may be styles) invalidates what redo is expected to bring back
+                 ELSE IF old.has /\ e.ev \in {"Undo", "Redo"} /\ new.undon # old.undon THEN <<>>
                  ELSE IF old.has /\ new.redo THEN old.future ELSE <<>>
       v == Chk(atomic, "UpdateAtomic") \cup Chk(causal, "Causal") \cup
            Chk(undoExact, "UndoExact") \cup Chk(redoExact, "RedoExact") \cup
